@@ -33,7 +33,7 @@ var rec *vlib.Rec
 func TestMain(m *testing.M) {
 	rec = vlib.Open("C17")
 	rec.Rule("cases = Go source texts rendered from a dependency digraph over declarations of kinds const/var/func/type/method/var-multi: " +
-		"every labelled digraph on <=3 declarations x every kind assignment (quick; 4 declarations in thorough), rapid-drawn digraphs on 4-5 declarations, random graphs on 6-25 declarations, " +
+		"every labelled digraph on <=3 declarations x every kind assignment (thorough: plus every labelled digraph on 4 declarations x 64 of the 1296 kind assignments), rapid-drawn digraphs on 2-5 declarations, random graphs on 6-25 declarations, " +
 		"each edge realised at a drawn site (initialiser, declared type, signature, function body at block depth 0-3, closure, struct field type, next to a local that shadows the same name before/after/around it) and " +
 		"non-edges optionally realised as shadowed occurrences (parameter, named result, receiver, var/:=/const/type local, range/for/if/switch/type-switch/select binding, label, struct field, selector, struct-literal key); " +
 		"optionally surrounded/split by package, import, statement and expression runs. " +
